@@ -96,6 +96,8 @@ var h03Templates = []string{
 	"?.?e?", "?e?", ".?e-?", "?.e+?", "1e?9", "1e-?9", "1e3?9", "?e-32?", "1.7976931348623157e30?", "1.797693134862315?e308", "4.9e-32?", "2.470328229206232?e-324",
 	"1234567890??e30", "98765432109?e25", "5555555555??e37", "1234567890?2e23", "7.77777777??e29",
 	"9007199254740993.?", "900719925474099?", "4503599627370496.?", "1.00000000000000011102230246251565404236316680908203125?", "0.?000000000000000000000001",
+	// plain decimals of 16-19 significant digits: beyond 2^53 a shortcut through an integer and one division rounds twice
+	"94.17601719804?0?", "940497473450.94??", "15.8328277745127??", "0.12345678901234567??", "7205759403792793.?", "123456.789012345678?",
 }
 
 // H03Template: concrete frames with arbitrary bytes in the holes.
@@ -274,4 +276,62 @@ func H03Iters() {
 		vndReach("h03:iters-rejected")
 		vndAssert(werr != nil, "iters-accepted-text-yields-a-result")
 	}
+}
+
+var h03HistFirst = []string{"1?234", "12?", "3.4?5", "7e?", "?5%", "1e40?", "123456789012345678901?"}
+var h03HistSecond = []string{"100000000000000000000", "9007199254740993.0", "4.9e-324", "1.7976931348623157e308", "0.1000000000000000055511151231257827", "12345678901234567890123e-5"}
+
+// H03History: two numbers read one after the other by the same reader, and the second one
+// again through a fresh reader. The first has an arbitrary byte in it (so it is accepted on
+// some paths and rejected, after some digits were consumed, on others); the second needs the
+// multiprecision path. What the first one was must not influence the second.
+func H03History() {
+	a := []byte(h03HistFirst[vndParam("first")])
+	b := []byte(h03HistSecond[vndParam("second")])
+	for k := range a {
+		if a[k] == '?' {
+			a[k] = vndByte("hole")
+			vndAssume(h03NotSpace(a[k]))
+			if len(a) > 8 {
+				// beyond the exact path the parser is only tractable on concrete text:
+				// the byte is one of a few representatives, case-split
+				vndAssume(vndOr(vndOr(a[k] == '7', a[k] == ','), vndOr(a[k] == 'e', a[k] == '.')))
+				a[k] = vndConcretizeByte(a[k])
+			}
+		}
+	}
+	text := append([]byte("BenchmarkX 1 "), a...)
+	text = append(text, " u\nBenchmarkY 1 "...)
+	text = append(text, b...)
+	text = append(text, " u\n"...)
+	r := NewReader(bytes.NewReader(text), "f")
+	wantA, errA := strconv.ParseFloat(string(a), 64)
+	wantB, errB := strconv.ParseFloat(string(b), 64)
+	if errB != nil {
+		panic("h03: second number must be valid")
+	}
+	if !r.Scan() {
+		vndAssert(false, "hist-first-record")
+		return
+	}
+	switch rec := r.Result().(type) {
+	case *Result:
+		vndAssert(errA == nil && len(rec.Values) == 1 && h03SameBits(rec.Values[0].Value, wantA), "hist-first-value-equals-standard-parser")
+	case *SyntaxError:
+		vndReach("h03:hist-first-rejected")
+		vndAssert(errA != nil, "hist-first-rejected-only-if-standard-parser-rejects")
+	}
+	if !r.Scan() {
+		vndAssert(false, "hist-second-record")
+		return
+	}
+	rec, ok := r.Result().(*Result)
+	vndAssert(ok && len(rec.Values) == 1, "hist-second-accepted")
+	if ok && len(rec.Values) == 1 {
+		vndAssert(h03SameBits(rec.Values[0].Value, wantB), "hist-second-value-independent-of-the-first-number")
+		vndObserveF64("second", rec.Values[0].Value)
+	}
+	got, isErr, ok2 := h03ReadValue(b)
+	vndAssert(ok2 && !isErr && h03SameBits(got, wantB), "hist-second-value-through-a-fresh-reader")
+	vndReach("h03:hist")
 }
